@@ -15,6 +15,7 @@
 #include <unistd.h>
 
 #include <algorithm>
+#include <map>
 #include <sstream>
 #include <tbox/http/server/request_parser.h>
 #include <tbox/http/request.h>
@@ -31,7 +32,8 @@ namespace {
 static const char *METHODS[] = {"GET", "POST", "PUT", "DELETE", "HEAD", "OPTIONS", "TRACE"};
 
 // ops
-//   req <method> <target> <ver(0=1.1,1=1.0)> <conn(0 none,1 close,2 keep-alive,3 "TE, close",4 "close, TE",5 "keep-alive, TE")> <bodylen> <hmode(0 inline,1 runNext,2 timer)> <hdelay_ms> <nhdr>
+//   req <method> <target> <ver(0=1.1,1=1.0)> <conn(0 none,1 close,2 keep-alive,3 "TE, close",4 "close, TE",5 "keep-alive, TE")> <bodylen> <hmode(0 inline,1 runNext,2 timer)> <hdelay_ms> <nhdr> <gmode> <gdelay_ms>
+//       (cfg gate=1: a middleware in front of the handler keeps the NextFunc it was given and calls it inline / from runNext / from a timer)
 //   seg <size> <dt_ms>                     segment sizes, used cyclically (only in the segmented delivery)
 //   mut <pos> <val>    junk <len> <seed>   cut <after_bytes>         (hostile plans)
 void generate(sim::Rng &r, uint64_t seed, const std::string &tier, sim::Plan &p) {
@@ -39,6 +41,7 @@ void generate(sim::Rng &r, uint64_t seed, const std::string &tier, sim::Plan &p)
   bool hostile = r.chance(350);
   p.cfg["hostile"] = hostile;
   p.cfg["backend"] = r.below(2);
+  p.cfg["gate"] = r.chance(300) ? 1 : 0;
   int nreq = (int)r.range(1, 6);
   int close_at = r.chance(400) ? (int)r.below((uint64_t)nreq) : -1;
   for (int i = 0; i < nreq; ++i) {
@@ -49,7 +52,7 @@ void generate(sim::Rng &r, uint64_t seed, const std::string &tier, sim::Plan &p)
     else if (r.chance(150)) conn = r.chance(700) ? 2 : 5;
     long bl = r.chance(400) ? 0 : r.pick((const long[]){1, 2, 10, 100, 1000, 8192});
     if (thorough && r.chance(50)) bl = 70000;
-    op.a = {(long)r.below(7), r.range(0, 99), ver, conn, bl, (long)r.below(3), r.range(0, 8), r.range(0, 4)};
+    op.a = {(long)r.below(7), r.range(0, 99), ver, conn, bl, (long)r.below(3), r.range(0, 8), r.range(0, 4), (long)r.below(3), r.range(0, 8)};
     p.ops.push_back(op);
   }
   // a first connection sends the first `reconn` requests and hangs up at once (their handlers may still be pending);
@@ -84,7 +87,7 @@ void generate(sim::Rng &r, uint64_t seed, const std::string &tier, sim::Plan &p)
   p.sched.strategy = "none";
 }
 
-struct Truth { std::string canon; bool closing; long hmode, hdelay; size_t end_off = 0; };
+struct Truth { std::string canon; bool closing; long hmode, hdelay; long gmode = 0, gdelay = 0; size_t end_off = 0; };
 
 std::string build_stream(const sim::Plan &plan, std::vector<Truth> &truth) {
   std::string s;
@@ -127,6 +130,8 @@ std::string build_stream(const sim::Plan &plan, std::vector<Truth> &truth) {
     t.closing = v10 ? (conn != 2 && conn != 5) : (conn == 1 || conn == 3 || conn == 4);
     t.hmode = ((op.arg(5) % 3) + 3) % 3;
     t.hdelay = std::max(0L, std::min(50L, op.arg(6)));
+    t.gmode = ((op.arg(8) % 3) + 3) % 3;
+    t.gdelay = std::max(0L, std::min(50L, op.arg(9)));
     t.end_off = s.size();
     truth.push_back(t);
     ++idx;
@@ -139,7 +144,9 @@ struct World {
   Server *server = nullptr;
   eventx::TimerPool *tp = nullptr;
   std::vector<Truth> *truth = nullptr;
-  std::vector<std::string> handled;     // canonical strings, in the order the handler saw them
+  std::vector<std::string> handled;     // canonical strings, in the order the first middleware saw them
+  std::map<const Context *, size_t> idx_of;   // requests between the gate and the handler
+  bool gate = false;
   int cfd = -1;
   bool client_closed = false;           // the driver closed its side (hostile "cut")
   bool server_eof = false;              // client read returned 0
@@ -159,9 +166,31 @@ std::string canon_of(const Request &req) {
   return os.str();
 }
 
+// the arrival number of a request: given by the first middleware that sees it
+size_t arrival(const ContextSptr &ctx, bool last) {
+  size_t idx;
+  auto it = W.idx_of.find(ctx.get());
+  if (it != W.idx_of.end()) idx = it->second;
+  else { idx = W.handled.size(); W.handled.push_back(canon_of(ctx->req())); W.idx_of[ctx.get()] = idx; }
+  if (last) W.idx_of.erase(ctx.get());
+  return idx;
+}
+
+// a middleware that lets the request through later (authentication, rate limit...): it keeps only the NextFunc
+void gate(ContextSptr ctx, const NextFunc &next) {
+  size_t idx = arrival(ctx, false);
+  long mode = 0, delay = 0;
+  if (idx < W.truth->size()) { mode = (*W.truth)[idx].gmode; delay = (*W.truth)[idx].gdelay; }
+  sim::trace("gate #%zu mode %ld", idx, mode);
+  if (mode == 0) { next(); return; }
+  sim::probe("late_next_calls");
+  NextFunc n = next;
+  if (mode == 1) W.loop->runNext([n] { n(); }, "c12.gate");
+  else W.tp->doAfter(std::chrono::milliseconds(std::max(1L, delay)), [n] { n(); });
+}
+
 void handler(ContextSptr ctx, const NextFunc &) {
-  size_t idx = W.handled.size();
-  W.handled.push_back(canon_of(ctx->req()));
+  size_t idx = arrival(ctx, true);
   sim::trace("handler #%zu", idx);
   sim::relevant();
   ctx->res().status_code = StatusCode::k200_OK;
@@ -194,6 +223,8 @@ Delivery deliver(const sim::Plan &plan, const std::string &stream, std::vector<T
   W.server = new Server(W.loop);
   W.path = std::string(sim::run_dir()) + (segmented ? "/h1.sock" : "/h0.sock");
   if (!W.server->initialize(network::SockAddr::FromString(W.path), 4)) { fprintf(stderr, "http init failed\n"); _exit(3); }
+  W.gate = plan.get("gate") != 0;
+  if (W.gate) W.server->use(gate);
   W.server->use(handler);
   W.server->start();
 
@@ -275,6 +306,8 @@ Delivery deliver_two(const sim::Plan &plan, const std::string &stream, std::vect
   W.server = new Server(W.loop);
   W.path = std::string(sim::run_dir()) + "/h2.sock";
   if (!W.server->initialize(network::SockAddr::FromString(W.path), 4)) { fprintf(stderr, "http init failed\n"); _exit(3); }
+  W.gate = plan.get("gate") != 0;
+  if (W.gate) W.server->use(gate);
   W.server->use(handler);
   W.server->start();
   static drv::Timeline tl;
